@@ -3,3 +3,5 @@
 package genql
 
 func verifStage(*Query, string, any) {}
+
+func verifCache(string, string) {}
